@@ -10,6 +10,7 @@ package main
 import (
 	"encoding/binary"
 	"fmt"
+	"io"
 	"math/rand"
 	"net"
 	"os"
@@ -57,7 +58,7 @@ var (
 	npollers = []int{1, 2, 4}
 	readBufs = []int{1, 7, 512, 4096, 65536}
 	maxReads = []int{1, 3, 0}
-	patterns = []string{"burst", "small", "bytewise", "pause", "big", "halfclose", "fullclose"}
+	patterns = []string{"burst", "small", "bytewise", "pause", "big", "halfclose", "fullclose", "echo"}
 )
 
 func genCase(r *h.Run, idx int) caseT {
@@ -84,6 +85,18 @@ func genCase(r *h.Run, idx int) caseT {
 	}
 	if c.Pattern == "bytewise" && c.Total > 3000 {
 		c.Total = 500 + rng.Intn(2500)
+	}
+	if c.Pattern == "echo" && c.Net != "udp" {
+		// the application answers every chunk with a Write while the peer does not read: a write
+		// backlog forms on nbio's side (write interest is armed and re-armed while input keeps coming)
+		if c.ReadBuf < 4096 {
+			c.ReadBuf = []int{4096, 65536}[rng.Intn(2)]
+		}
+		c.Total = 2<<20 + rng.Intn(1<<20)
+		if c.Net == "tcp" {
+			c.Total = 10<<20 + rng.Intn(4<<20)
+		}
+		c.Conns = 1 + rng.Intn(2)
 	}
 	if c.Net == "udp" {
 		if c.ReadBuf < 4096 {
@@ -250,6 +263,9 @@ func runCase(r *h.Run, c caseT) {
 		}
 		l.calls++
 		l.mu.Unlock()
+		if c.Pattern == "echo" && c.Net != "udp" {
+			_, _ = cn.Write(cp)
+		}
 		atomic.AddInt64(&rec.bytes, int64(len(b)))
 		atomic.AddInt64(&rec.calls, 1)
 		if len(b) > 0 {
@@ -314,6 +330,8 @@ func runCase(r *h.Run, c caseT) {
 			for off < len(data) {
 				var n int
 				switch c.Pattern {
+				case "echo":
+					n = 16384 + prng.Intn(65536)
 				case "burst", "halfclose", "fullclose":
 					n = len(data)
 				case "small":
@@ -354,6 +372,10 @@ func runCase(r *h.Run, c caseT) {
 				case *net.UnixConn:
 					_ = v.CloseWrite()
 				}
+			}
+			if c.Pattern == "echo" {
+				// only now the peer reads what was echoed (the content of the echo is C01's business)
+				go func() { _, _ = io.Copy(io.Discard, p.conn) }()
 			}
 			if c.Pattern == "fullclose" {
 				// everything written before is still owed to the application
